@@ -106,6 +106,15 @@ def generic_runner(P, exe, model_ok, rng, tier, replay=None):
                     sid, li, cmd, sec, " ".join(a or ["<none>"])[:160], " ".join(b or ["<none>"])[:160]))
                 if first_div is None:
                     first_div = text_of[sid]
+            # the flow model consumes the neighbour lists the REAL grid reported; the grid model (the
+            # one the C07 / C18 theorems are about) computes its own: they must agree, else the flow
+            # property is judged against a wrong geometry
+            for mc in (sm.calls if sm else []):
+                if mc.O.get("topo_model_agrees") == ["0"]:
+                    fails.append(dict(clause="neighbor_lists_match_grid_geometry", cause="other",
+                                      witness="scenario %s: the neighbour indices / distances the grid reports differ from the grid model's (Fs.C07 / Fs.C18 geometry)" % sid,
+                                      scenario_text=text_of[sid]))
+                    break
             # certificates evaluated by the model driver (each has a Lean soundness theorem):
             # a rejected certificate is a failure of the property clause it certifies
             for key, (want, clause, what) in P.get("model_certs", {}).items():
